@@ -38,9 +38,12 @@ CONTEXTS = [
     ("after-ignored-tag", "%s", {}),
     ("after-ignored-tags", "* %s\n", {}),
     ("styled-template-arg", "{{M|%s}}", {"M": '<templatestyles src="x"/>{{{1}}}'}),
+    # on a page whose braces nest deeper than the template parser follows (it leaves such a page unexpanded)
+    ("beside-deep-braces", "%s " + "{{lc:" * 400 + "z" + "}}" * 400, {}),
     ("lc-arg", "{{lc:%s}}", {}),
     ("uc-arg", "{{uc:%s}}", {}),
 ]
+HEAVY_CONTEXTS = ["beside-deep-braces"]  # (parsing the page costs ~10 ms: shorter bodies)
 SENTINEL_CASE = {"lc-arg": str.lower, "uc-arg": str.upper}
 # what stands between the first sentinel and the region (nothing, normally)
 GLUE = {"after-ignored-tag": '<templatestyles src="x"/>', "after-ignored-tags": '<templatestyles src="x"/><categorytree>c</categorytree>'}
@@ -95,11 +98,12 @@ class C09(InputProp):
         Uniquifier.random_string = "0123456789abcdef"
         self.Uniquifier = Uniquifier
         self.parse = uparser.parse_string
-        bodies = Product(TAGS, [c[0] for c in CONTEXTS], Seqs(SIGMA_B, 2 if tier == "quick" else 3, minlen=1), name="bodies")
+        bodies = Product(TAGS, [c[0] for c in CONTEXTS if c[0] not in HEAVY_CONTEXTS], Seqs(SIGMA_B, 2 if tier == "quick" else 3, minlen=1), name="bodies")
+        heavy = Product(TAGS, HEAVY_CONTEXTS, Seqs(SIGMA_B, 1 if tier == "quick" else 2, minlen=1), name="bodies")
         # the same region once inside <nowiki> and once for real on one page (one Uniquifier): markers must not be shared
         twins = Product(["math", "pre", "source", "syntaxhighlight", "timeline"], ["real-first", "nowiki-first"],
                         ["top", "bullet", "cell", "bold"], ["w", "x^2 ''a''"], name="twins")
-        self.space = Concat(bodies, twins)
+        self.space = Concat(bodies, heavy, twins)
         self.ctx = {c[0]: c for c in CONTEXTS}
         self.baselines = {}
 
